@@ -634,3 +634,137 @@ Theorem example_histories_stay_wellformed :
   end = true.
 Proof. exact C15W9Store.example_histories_stay_wellformed. Qed.
 Print Assumptions example_histories_stay_wellformed.
+
+(* ---- wave 10: wf_store is no longer a hypothesis on built worlds and along covered histories ----
+   (1) build_world of ANY list of rose trees with pairwise distinct node ids succeeds and every live tree passes the
+       executable check wf_store with the fuel S (length (s_nodes s)) (= world_wf), and the tree read off the store at
+       each seed has the node ids of the tree that was built (Proofs/C15W10Build.v);
+   (2) the semantic invariant winv (a forest of id-distinct rose trees that the store holds at the live seeds) implies
+       world_wf, is established by build_world and preserved by the COVERED step kinds (Proofs/C15W10Steps.v):
+         SKids n es false   kids = n.child_nodes(); any edits of that private list; the caller keeps it
+         SNewChild n x      x = n.new_child()   (x a new id not yet referenced at n)
+         SRemoveChild n     n.parent_node.remove_child(n)   (it succeeds only for a real child; the subtree leaves)
+         STreeFromSeed n    Tree(seed_node = n), n ATTACHED inside a live tree: n's subtree is spliced out of that
+         SAssignSeed k n    tree and becomes the new / reassigned tree; both stay well formed
+         SNewTree t         a new tree built later from nodes that do not exist yet
+         SRefused k p n     a refused call (leaves the store)
+       NOT covered (not proved): SKids _ _ true (set_child_nodes of the edited copy), STreeFromSeed / SAssignSeed of a
+       node that has no parent or lies in no live tree; SReparent is refuted below, as are add_child /
+       set_child_nodes with a node that still has another parent (C03's finding in the unchanged library);
+   (3) in every world reachable from built trees by covered steps every live tree's machines yield their structural
+       orders (structural_orders s f seed is, verbatim, the conclusion of traversals_on_wellformed_store). *)
+From DV Require Import Proofs.C15W10Build Proofs.C15W10Steps.
+
+Theorem build_world_establishes_wf : forall ts : list tree, NoDup (flat_map ids ts) ->
+  exists s, build_world ts empty_store = Ok (tt, s) /\
+    s_trees s = map t_id ts /\ s_held s = [] /\
+    world_wf s = true /\
+    forall t, In t ts ->
+      wf_store s (S (length (s_nodes s))) (t_id t) = true /\
+      ids (store_tree s (S (length (s_nodes s))) (t_id t)) = ids t.
+Proof. exact C15W10Build.build_world_establishes_wf. Qed.
+Print Assumptions build_world_establishes_wf.
+
+Theorem structural_orders_of_wellformed_store : forall s f seed,
+  wf_store s f seed = true -> structural_orders s f seed.
+Proof. exact wf_store_structural_orders. Qed.
+Print Assumptions structural_orders_of_wellformed_store.
+
+Theorem traversals_on_built_worlds : forall ts : list tree, NoDup (flat_map ids ts) ->
+  exists s, build_world ts empty_store = Ok (tt, s) /\ s_trees s = map t_id ts /\
+    forall seed, In seed (s_trees s) ->
+      let f := S (length (s_nodes s)) in
+      structural_orders s f seed /\
+      (exists x, loc (store_tree s f seed, []) x /\ l_id x = seed /\
+                 (2 * size (here x) + l_depth x + 2 <= store_fuel s)%nat).
+Proof. exact C15W10Build.traversals_on_built_worlds. Qed.
+Print Assumptions traversals_on_built_worlds.
+
+Theorem build_world_establishes_invariant : forall ts, NoDup (flat_map ids ts) ->
+  exists s, build_world ts empty_store = Ok (tt, s) /\ winv s.
+Proof. exact build_world_winv. Qed.
+Print Assumptions build_world_establishes_invariant.
+
+Theorem invariant_gives_world_wf : forall s, winv s -> world_wf s = true.
+Proof. exact winv_world_wf. Qed.
+Print Assumptions invariant_gives_world_wf.
+
+Theorem private_copy_step_preserves : forall s n es s1, winv s ->
+  do_step (SKids n es false) s = Ok (tt, s1) -> winv s1.
+Proof. exact step_private_copy_preserves. Qed.
+Print Assumptions private_copy_step_preserves.
+
+Theorem new_child_step_preserves : forall s n x s1, winv s ->
+  ~ In x (kids_of s n) -> parent_of s n <> Some x ->
+  do_step (SNewChild n x) s = Ok (tt, s1) -> winv s1.
+Proof. exact step_new_child_preserves. Qed.
+Print Assumptions new_child_step_preserves.
+
+Theorem new_tree_step_preserves : forall s t s1, winv s -> NoDup (ids t) -> (forall y, In y (ids t) -> ~ dom s y) ->
+  do_step (SNewTree t) s = Ok (tt, s1) -> winv s1.
+Proof. exact step_new_tree_preserves. Qed.
+Print Assumptions new_tree_step_preserves.
+
+Theorem new_tree_step_succeeds : forall s t, winv s -> NoDup (ids t) -> (forall y, In y (ids t) -> ~ dom s y) ->
+  exists s1, do_step (SNewTree t) s = Ok (tt, s1).
+Proof. exact step_new_tree_succeeds. Qed.
+Print Assumptions new_tree_step_succeeds.
+
+Theorem covered_step_preserves_invariant : forall s st s', winv s -> covered s st -> step_to s st s' -> winv s'.
+Proof. exact covered_step_preserves. Qed.
+Print Assumptions covered_step_preserves_invariant.
+
+Theorem reachable_worlds_are_wellformed : forall s, reachable s -> world_wf s = true.
+Proof. exact reachable_world_wf. Qed.
+Print Assumptions reachable_worlds_are_wellformed.
+
+Theorem traversals_on_reachable_worlds : forall s, reachable s ->
+  forall seed, In seed (s_trees s) ->
+    let f := S (length (s_nodes s)) in
+    wf_store s f seed = true /\
+    structural_orders s f seed /\
+    (exists x, loc (store_tree s f seed, []) x /\ l_id x = seed /\
+               (2 * size (here x) + l_depth x + 2 <= store_fuel s)%nat).
+Proof. exact C15W10Steps.traversals_on_reachable_worlds. Qed.
+Print Assumptions traversals_on_reachable_worlds.
+
+Theorem remove_child_step_preserves : forall s n s1, winv s ->
+  do_step (SRemoveChild n) s = Ok (tt, s1) -> winv s1.
+Proof. exact step_remove_child_preserves. Qed.
+Print Assumptions remove_child_step_preserves.
+
+Theorem tree_from_attached_seed_step_preserves : forall s n s1, winv s -> in_live_tree s n -> parent_of s n <> None ->
+  do_step (STreeFromSeed n) s = Ok (tt, s1) -> winv s1.
+Proof. exact step_tree_from_attached_seed_preserves. Qed.
+Print Assumptions tree_from_attached_seed_step_preserves.
+
+Theorem assign_attached_seed_step_preserves : forall s k n s1, winv s -> in_live_tree s n -> parent_of s n <> None ->
+  do_step (SAssignSeed k n) s = Ok (tt, s1) -> winv s1.
+Proof. exact step_assign_attached_seed_preserves. Qed.
+Print Assumptions assign_attached_seed_step_preserves.
+
+(* satisfiable: one step of each covered kind from a built tree (private copy with edits, new_child, a new tree,
+   Tree(seed_node = attached node 1), remove_child, a refused call) *)
+Theorem reachable_world_example :
+  exists s, reachable s /\ s_trees s = [0; 10; 1]%Z /\
+    ids (store_tree s (S (length (s_nodes s))) 0%Z) = [0; 2]%Z /\
+    ids (store_tree s (S (length (s_nodes s))) 10%Z) = [10]%Z /\
+    ids (store_tree s (S (length (s_nodes s))) 1%Z) = [1; 3; 5]%Z /\ s_held s <> [].
+Proof. exact reachable_example. Qed.
+Print Assumptions reachable_world_example.
+
+Theorem add_child_of_attached_node_preserves_wf_refuted :
+  ~ (forall s p n s', world_wf s = true -> Node_add_child_obj p n s = Ok (n, s') -> world_wf s' = true).
+Proof. exact C15W10Steps.add_child_of_attached_node_preserves_wf_refuted. Qed.
+Print Assumptions add_child_of_attached_node_preserves_wf_refuted.
+
+Theorem set_child_nodes_with_attached_node_preserves_wf_refuted :
+  ~ (forall s p q s', world_wf s = true ->
+       mbind (Node_child_nodes_obj q) (fun l => Node_set_child_nodes_obj p l) s = Ok (tt, s') -> world_wf s' = true).
+Proof. exact C15W10Steps.set_child_nodes_with_attached_node_preserves_wf_refuted. Qed.
+Print Assumptions set_child_nodes_with_attached_node_preserves_wf_refuted.
+
+Theorem reparent_step_preserves_wf_refuted :
+  ~ (forall s n p s', world_wf s = true -> do_step (SReparent n p) s = Ok (tt, s') -> world_wf s' = true).
+Proof. exact C15W10Steps.reparent_step_preserves_wf_refuted. Qed.
+Print Assumptions reparent_step_preserves_wf_refuted.
